@@ -5,6 +5,7 @@ import (
 	"sync"
 
 	gogo "github.com/gogo/protobuf/proto"
+	googlev1 "github.com/golang/protobuf/proto" //nolint: staticcheck // we're using this deprecated package intentionally
 	google "google.golang.org/protobuf/proto"
 )
 
@@ -41,7 +42,7 @@ func deduceMsgType(msg interface{}, typ reflect.Type) MessageType {
 	if _, ok := msg.(google.Message); ok {
 		return MessageTypeGoogle
 	}
-	if typ.Kind() != reflect.Ptr {
+	if typ == nil || typ.Kind() != reflect.Ptr {
 		return MessageTypeUnknown
 	}
 	// does the message satisfy Gogo's csproto.Message interface
@@ -52,5 +53,9 @@ func deduceMsgType(msg interface{}, typ reflect.Type) MessageType {
 			return MessageTypeGogo
 		}
 	}
-	return MessageTypeGoogleV1
+	// does the message satisfy Google's v1 csproto.Message interface?
+	if _, ok := msg.(googlev1.Message); ok {
+		return MessageTypeGoogleV1
+	}
+	return MessageTypeUnknown
 }
